@@ -380,12 +380,15 @@ func GetKeyAt(sortedKeys []string, size int64, pos int64, forward bool) string {
 // checkExpressions rejects a malformed key condition or filter, with the panic interpreterMatch uses,
 // even when no item is going to be tested against it
 func (t *Table) checkExpressions(input QueryInput) {
-	if t.UseNativeInterpreter {
-		return
-	}
+	kinds := []interpreter.ExpressionType{interpreter.ExpressionTypeKey, interpreter.ExpressionTypeFilter}
 
-	for _, expr := range []string{input.KeyConditionExpression, input.FilterExpression} {
+	for i, expr := range []string{input.KeyConditionExpression, input.FilterExpression} {
 		if expr == "" {
+			continue
+		}
+
+		// an expression with a registered matcher never reaches the built-in interpreter
+		if t.UseNativeInterpreter && t.NativeInterpreter.HasMatcher(t.Name, kinds[i], expr) {
 			continue
 		}
 
